@@ -126,7 +126,7 @@ def fPMM (s : PMM Float) (g : List Float) (sel : Option (List Nat)) : String :=
   let fields := s.srcFieldNames
   let idxs := s.srcModelIdxs sel
   let specRows := idxs.map (fun i =>
-    (i, fields.map (fun f => Spec.cell f s.gps.params (s.mpn[i]?.getD []) 0 g)))
+    (i, fields.map (fun f => Spec.cell f s.gps.params (s.mpn[i]?.getD []) 0 0 g)))
   String.intercalate " " ([
     "src:" ++ fListD toString (s.srcModelIdxs none),
     "sel:" ++ fListD toString idxs,
